@@ -33,6 +33,13 @@ SIBS = [("marginal_map_h", "marginal_map_eval", "marginal_map"), ("meu_h", "eu_u
 P_LB, P_BEST, P_VARS, P_WMC, P_ASSGN = ("param", 2), ("param", 3), ("param", 4), ("param", 5), ("param", 6)
 
 
+def verdict_of(errs):
+    """messages starting with '?' say "shape not recognised": alone they make the instance undecided, never a violation"""
+    if not errs:
+        return OK
+    return UNDECIDED if all(e.startswith("?") for e in errs) else VIOLATION
+
+
 def has(t, pred):
     return any(pred(x) for x in mir.subterms(t))
 
@@ -65,8 +72,8 @@ def run(prog):
         K = fn.npath
 
         def put(rule, errs, okmsg, line=None, und=False):
-            out.append(inst("BB", "%s:%s" % (K, rule), UNDECIDED if und else (VIOLATION if errs else OK), fn, line,
-                            "; ".join(errs) if errs else okmsg))
+            out.append(inst("BB", "%s:%s" % (K, rule), UNDECIDED if und else verdict_of(errs), fn, line,
+                            "; ".join(e.lstrip("?") for e in errs) if errs else okmsg))
 
         # split on `vars` empty
         leaf = node = None
@@ -85,7 +92,7 @@ def run(prog):
         kinds = set()
         for a in alts:
             if a is None:
-                errs.append("a leaf result is not a (value, assignment) pair")
+                errs.append("?a leaf result is not a (value, assignment) pair")
                 continue
             v, w = a
             if v == P_LB and unclone(w) == P_BEST:
@@ -96,7 +103,7 @@ def run(prog):
                 errs.append("the pair (%s, %s) mixes the value of one assignment with another assignment as witness"
                             % (show(v)[:50], show(w)[:30]))
         if not errs and kinds != {"keep", "new"}:
-            errs.append("expected both outcomes (keep the incoming pair / take the current assignment), found %s" % sorted(kinds))
+            errs.append("?expected both outcomes (keep the incoming pair / take the current assignment), found %s" % sorted(kinds))
         if not errs and leaf[0] == "gamma":
             c = strip(leaf[1])
             arms = {("T" if lab != "0" else "F"): tup(v) for lab, v in leaf[2] if tup(v)}
@@ -106,7 +113,7 @@ def run(prog):
                 l_new = has(c[2], lambda x: is_ucall(x, uname))
                 r_new = has(c[3], lambda x: is_ucall(x, uname))
                 if l_new == r_new:
-                    errs.append("leaf comparison %s does not compare the new value with the incoming bound" % show(c)[:80])
+                    errs.append("?leaf comparison %s does not compare the new value with the incoming bound" % show(c)[:80])
                 else:
                     better_when_true = (c[1] in ("Gt", "Ge")) == l_new
                     want_true = "new" if better_when_true else "keep"
@@ -119,20 +126,20 @@ def run(prog):
                 ch = b if mir.is_call(b, "choose") else (a if mir.is_call(a, "choose") else None)
                 other = a if ch is b else b
                 if ch is None:
-                    errs.append("leaf test %s not recognised" % show(c)[:80])
+                    errs.append("?leaf test %s not recognised" % show(c)[:80])
                 else:
                     want_true = "keep" if other == P_LB else "new"
                     if "T" in arms and kind(arms["T"]) != want_true:
                         errs.append("when choose(..) returns %s the leaf returns the %s pair" % (show(other)[:30], kind(arms["T"])))
             else:
-                errs.append("leaf test %s not recognised" % show(c)[:80])
+                errs.append("?leaf test %s not recognised" % show(c)[:80])
         put("BB1:leaf", errs, "leaf returns (incoming bound, incoming best) or (value of cur_assgn, cur_assgn), the better one")
         # ---- BB2
         sets = [cs for cs in te.calls if cs.callee.name == "set" and "PartialModel" in cs.callee.key()]
         errs = []
         models = {}
         if len(sets) != 2:
-            errs.append("expected two PartialModel::set calls, found %d" % len(sets))
+            errs.append("?expected two PartialModel::set calls, found %d" % len(sets))
         else:
             vals = set()
             for cs in sets:
@@ -140,7 +147,7 @@ def run(prog):
                 if show(x) != "arg4[0]":
                     errs.append("line %d: the branching variable is %s, not the first remaining variable" % (cs.line, show(x)[:30]))
                 if v[0] != "const":
-                    errs.append("line %d: branch value is not a constant" % cs.line)
+                    errs.append("?line %d: branch value is not a constant" % cs.line)
                 else:
                     vals.add(v[2])
                     models[cs.bb] = int(v[2])
@@ -161,18 +168,18 @@ def run(prog):
                 return m[1][0]
             return None
         if not arrays:
-            errs.append("branching order array not found")
+            errs.append("?branching order array not found")
         for arr in arrays:
             pairs = [tup(e) for e in arr[4]]
             if any(p is None for p in pairs):
-                errs.append("order entries are not (bound, model) pairs")
+                errs.append("?order entries are not (bound, model) pairs")
                 continue
             sites = []
             for ub, m in pairs:
                 ms = model_site(m)
                 sites.append(ms)
                 if not (is_ucall(ub, uname) and len(ub[2]) >= 4):
-                    errs.append("order entry's first component %s is not a call of %s" % (show(ub)[:40], uname))
+                    errs.append("?order entry's first component %s is not a call of %s" % (show(ub)[:40], uname))
                     continue
                 if model_site(ub[2][1]) != ms or ms is None:
                     errs.append("an order entry pairs the model of one branch with the upper bound computed for the other branch")
@@ -194,9 +201,9 @@ def run(prog):
             if unclone(v) == P_BEST and best_mu is None:
                 best_mu = ("mu", h, l)
         if lb_mu is None or best_mu is None:
-            errs.append("running best pair is not initialised with the incoming (bound, best assignment)")
+            errs.append("?running best pair is not initialised with the incoming (bound, best assignment)")
         if len(recs) != 1:
-            errs.append("expected one recursive call, found %d" % len(recs))
+            errs.append("?expected one recursive call, found %d" % len(recs))
         else:
             cs = recs[0]
             a = [strip(x) for x in cs.args]
@@ -233,7 +240,7 @@ def run(prog):
                                             % (show(x)[:40], show(y)[:40]))
                                 break
                 else:
-                    errs.append("running best update not recognised")
+                    errs.append("?running best update not recognised")
             # BB5: guard
             guards = []
             for c, val, _, _ in te.facts_at(cs.bb):
@@ -296,11 +303,11 @@ def run(prog):
                     if sc.endswith("as Some).0") and "get(" in sc and "discr" not in sc:
                         pol = 0 if val == "0" else 1
                 if pol is None:
-                    errs.append("assigned-variable case not recognised")
+                    errs.append("?assigned-variable case not recognised")
                 elif (v == high) != (pol == 1):
                     errs.append("a variable assigned %s continues with the %s child" % (bool(pol), "high" if v == high else "low"))
         if len(direct) != 2:
-            errs.append("expected the two assigned-variable cases to return the children unchanged, found %d" % len(direct))
+            errs.append("?expected the two assigned-variable cases to return the children unchanged, found %d" % len(direct))
         rest = [a for a in alts if a not in (low, high)]
         okrest = False
         for a in rest:
@@ -346,9 +353,9 @@ def run(prog):
                             errs.append("the relaxed case is not a max/join of the two sides (%s)" % sv[:60])
                 okrest = True
         if not okrest:
-            errs.append("unassigned-variable case (relax if in the set, else sum) not recognised")
-        out.append(inst("BB", "%s:BB6:bound" % ufn.npath, VIOLATION if errs else OK, g, None,
-                        "; ".join(errs) if errs else "assigned true → high, assigned false → low, in set → max/join of both sides, else w_l·low + w_h·high"))
+            errs.append("?unassigned-variable case (relax if in the set, else sum) not recognised")
+        out.append(inst("BB", "%s:BB6:bound" % ufn.npath, verdict_of(errs), g, None,
+                        "; ".join(e.lstrip("?") for e in errs) if errs else "assigned true → high, assigned false → low, in set → max/join of both sides, else w_l·low + w_h·high"))
         # ---- BB6w: weights of the already assigned query variables (where the bound multiplies them in)
         ute = ufn.terms
         werrs, wn = [], 0
@@ -364,24 +371,24 @@ def run(prog):
                 for which, a in arms.items():
                     w = [strip(o) for o in (a[2], a[3]) if "var_weight" in show(o)]
                     if not w or w[0][0] != "field":
-                        werrs.append("weight operand not recognised in %s" % show(a)[:60])
+                        werrs.append("?weight operand not recognised in %s" % show(a)[:60])
                     elif (w[0][2] == "1") != (which == "T"):
                         werrs.append("a query variable assigned %s is weighted with its %s weight"
                                      % ("true" if which == "T" else "false", "low" if w[0][2] == "0" else "high"))
         if wn:
-            out.append(inst("BB", "%s:BB6w:assigned-weights" % ufn.npath, VIOLATION if werrs else OK, ufn, None,
-                            "; ".join(werrs) if werrs else "assigned true ↦ × high weight, assigned false ↦ × low weight"))
+            out.append(inst("BB", "%s:BB6w:assigned-weights" % ufn.npath, verdict_of(werrs), ufn, None,
+                            "; ".join(e.lstrip("?") for e in werrs) if werrs else "assigned true ↦ × high weight, assigned false ↦ × low weight"))
         # ---- BB7 driver
         dfn = prog.find1(name=dname, self_adt="repr::bdd::BddPtr", unit="rsdd-lib")
         dr = strip(dfn.terms.ret)
         errs = []
         if not mir.is_call(dr, sname) or len(dr[2]) != 6:
-            errs.append("driver does not end in a call of %s" % sname)
+            errs.append("?driver does not end in a call of %s" % sname)
         else:
             a = [strip(x) for x in dr[2]]
             ucs = [x for x in mir.subterms(a[1]) if is_ucall(x, uname)]
             if not ucs:
-                errs.append("initial lower bound is not a value computed by %s" % uname)
+                errs.append("?initial lower bound is not a value computed by %s" % uname)
             elif unclone(ucs[0][2][1]) != unclone(a[2]):
                 errs.append("the initial lower bound is the value of %s but the initial best assignment is %s"
                             % (show(ucs[0][2][1])[:40], show(a[2])[:40]))
@@ -389,6 +396,6 @@ def run(prog):
                 errs.append("the search is started on %s, not on the full list of query variables" % show(a[3])[:40])
             if has(a[5], lambda x: x == ("param", 2)):
                 errs.append("the search does not start from the empty assignment")
-        out.append(inst("BB", "%s:BB7:driver" % dfn.npath, VIOLATION if errs else OK, dfn, None,
-                        "; ".join(errs) if errs else "lower bound = value of the initial best assignment; search from the empty assignment over all query variables"))
+        out.append(inst("BB", "%s:BB7:driver" % dfn.npath, verdict_of(errs), dfn, None,
+                        "; ".join(e.lstrip("?") for e in errs) if errs else "lower bound = value of the initial best assignment; search from the empty assignment over all query variables"))
     return out
